@@ -8,6 +8,9 @@
 #ifdef VERIF_TREE
 #include "../engine/tree.hpp"
 #endif
+#ifdef VERIF_COV
+#include <tao/pegtl/contrib/coverage.hpp>
+#endif
 
 #include <algorithm>
 
@@ -108,6 +111,10 @@ static std::string check_hooks( bool has_unwind, bool& action_exc_defect )
 
 // ---------------------------------------------------------------- one execution
 static long exec_in_prog = 0;
+#ifdef VERIF_COV
+static p::coverage_result cov_result;
+static std::string cov_threw;
+#endif
 
 static void report( const char* pid, const std::string& what, const Case& c, const std::string& extra = "", bool with_root = true )
 {
@@ -147,6 +154,9 @@ static void one_execution( const Case& c, const std::vector< int >& pre, bool ve
    In in( buf.p, buf.p + buf.n, "src", g_ib, g_il, g_ic );
    check_positions = S.check_positions;
    monitor_apply_mode = !S.check_scopes;
+#ifdef VERIF_COV
+   monitor_frames = false;
+#endif
    verif_c03 = 0;
    Real r;
    fault_armed = 1;
@@ -157,6 +167,41 @@ static void one_execution( const Case& c, const std::vector< int >& pre, bool ve
 #ifdef VERIF_TREE
       tree = TR::run_tree( c.cfg, in, S.fuel );
       r = tree.r;
+#elif defined( VERIF_COV )
+      cov_result.clear();
+      cov_threw.clear();
+      fuel = S.fuel;
+      fuel_out = false;
+      top_A = 1;
+      L.reset();
+      try {
+         const bool ok = ( c.cfg.fam == 1 ) ? p::coverage< node< 0 >, act_apply >( in, cov_result ) : p::coverage< node< 0 >, act_bool >( in, cov_result );
+         r.kind = ok ? Real::OK : Real::FAILED;
+         r.pos = int( in.current() - g_begin );
+      }
+      catch( const Fuel& ) {
+         r.kind = Real::FUEL;
+      }
+      catch( const p::parse_error& e ) {
+         r.kind = Real::PARSE_ERROR;
+         r.msg = std::string( e.message() );
+         r.byte = e.position_object().byte;
+         r.line = e.position_object().line;
+         r.column = e.position_object().column;
+         r.what = e.what();
+      }
+      catch( const ActX& e ) {
+         r.kind = Real::ACT_X;
+         r.who = e.node;
+      }
+      catch( const std::exception& e ) {
+         r.kind = Real::OTHER;
+         cov_threw = e.what();
+      }
+      catch( ... ) {
+         r.kind = Real::OTHER;
+      }
+      if( fuel_out ) r.kind = Real::FUEL;
 #else
       r = run_impl( c.cfg, in, S.fuel );
 #endif
@@ -212,6 +257,26 @@ static void one_execution( const Case& c, const std::vector< int >& pre, bool ve
       else
          report( exc ? S.exc_prop : S.result_prop, S.check_positions ? "match result differs from the reference (rule outcome depends on a position counter): " + cls : cls, c, j );
    }
+#ifdef VERIF_COV
+   // ---- coverage counters (C08): start = success + failure + unwind for every rule and branch, equal to the reference's count of attempts
+   if( !cov_threw.empty() ) report( "C08", "the coverage facility itself threw", c, cov_threw );
+   for( const auto& e : cov_result ) {
+      const auto& ci = e.second;
+      if( ci.start != ci.success + ci.failure + ci.unwind ) report( "C08", "coverage counters: start != success + failure + unwind for a rule", c, std::string( e.first ) );
+      for( const auto& b : ci.branches )
+         if( b.second.start != b.second.success + b.second.failure + b.second.unwind ) report( "C08", "coverage counters: start != success + failure + unwind for a branch", c, std::string( e.first ) + " -> " + std::string( b.first ) );
+   }
+   for( int i = 0; i < c.nrules; ++i ) {
+      const auto it = cov_result.find( node_names[ i ] );
+      if( it == cov_result.end() ) {
+         report( "C08", "coverage result has no entry for a rule of the grammar", c );
+         continue;
+      }
+      const auto& ci = it->second;
+      if( long( ci.start ) != RI.cov[ i ][ 0 ] || long( ci.success ) != RI.cov[ i ][ 1 ] || long( ci.failure ) != RI.cov[ i ][ 2 ] || long( ci.unwind ) != RI.cov[ i ][ 3 ] )
+         report( "C08", "coverage counters differ from the number of attempts / outcomes of the rule", c, "rule n" + std::to_string( i ) + " coverage " + std::to_string( ci.start ) + "/" + std::to_string( ci.success ) + "/" + std::to_string( ci.failure ) + "/" + std::to_string( ci.unwind ) + " reference " + std::to_string( RI.cov[ i ][ 0 ] ) + "/" + std::to_string( RI.cov[ i ][ 1 ] ) + "/" + std::to_string( RI.cov[ i ][ 2 ] ) + "/" + std::to_string( RI.cov[ i ][ 3 ] ) );
+   }
+#endif
 #ifdef VERIF_TREE
    // ---- the parse tree is the surviving derivation of the selected rules (C12)
    if( ( r.kind == Real::OK ) != tree.has_tree ) report( "C12", "a tree is returned although the parse did not succeed (or vice versa)", c );
